@@ -881,9 +881,18 @@ def case_Z(c):
 def parse_coq_lists(out):
     """parse `= [[..]; [..]] : list (list Z)` blocks -> list of list of list of int"""
     res = []
-    for m in re.finditer(r'=\s*(\[(?:.|\n)*?\])\s*:\s*list \(list Z\)', out):
-        txt = m.group(1).replace(';', ',').replace('%Z', '')
+    pos = 0
+    end_mark = ': list (list Z)'
+    while True:
+        a = out.find('= [', pos)
+        if a < 0:
+            break
+        b = out.find(end_mark, a)
+        if b < 0:
+            break
+        txt = out[a + 2:b].replace(';', ',').replace('%Z', '')
         res.append(json.loads(txt))
+        pos = b + len(end_mark)
     return res
 
 
@@ -894,6 +903,24 @@ def run_model(cases, tag, extra_imports='', max_rounds=8, oracle_exe=None, shard
     shutil.rmtree(cdir, ignore_errors=True)
     os.makedirs(cdir)
     tables = {c.id: {} for c in cases}
+    # pre-seed each case's table with every one-argument libm function at the innermost real part of each operand: most
+    # single operations then evaluate in one round (requests the model makes beyond that are completed round by round)
+    if oracle_exe is not None:
+        want = {}
+        for c in cases:
+            for v in c.args:
+                t, x = c.ty, v
+                while not t.is_float:
+                    x, t = x[0], t.inner
+                if isinstance(x, int) and t.width == 64:
+                    for fid in range(1, 21):
+                        want.setdefault(c.id, []).append((fid, x, 0, 0))
+        ans = run_oracle(oracle_exe, set((64,) + k for ks in want.values() for k in ks))
+        for cid, ks in want.items():
+            for k in ks:
+                v = ans.get((64,) + k)
+                if v is not None:
+                    tables[cid][k] = v
     results = {}
     pending = list(cases)
     rounds = 0
